@@ -444,6 +444,42 @@ fn exec_op(ctx: &Arc<MemCtx>, client: usize, held: &mut Vec<Held>, op: &Op) -> R
                 Err(e) => Res::err(err_kind(&e)),
             }
         }
+        Op::AbandonFetch { k, ver, w, yields, polls } => {
+            let hook = ctx.hook();
+            let mut fut = Box::pin(cache.get_or_fetch(&MKey { k: *k, hook: ctx.hook() }, || origin(*k, *ver, *w, (*yields).max(1), false, hook)));
+            let waker = futures_util::task::noop_waker();
+            let mut cx = std::task::Context::from_waker(&waker);
+            let mut done = None;
+            for _ in 0..=*polls {
+                if let std::task::Poll::Ready(r) = std::future::Future::poll(fut.as_mut(), &mut cx) {
+                    done = Some(r);
+                    break;
+                }
+                shuttle::thread::yield_now();
+            }
+            let abandoned = done.is_none();
+            drop(fut);
+            if abandoned {
+                // the caller is gone; the fetch task finishes on its own (quiescent point: wait for it)
+                hist::fault("caller_abandoned_fetch");
+                while !Spawner::verif_all_finished() {
+                    shuttle::thread::yield_now();
+                }
+            }
+            match done {
+                Some(Ok(e)) => {
+                    let r = read_entry(prop, *k, &e, src(e.source()));
+                    if e.source() == Source::Memory {
+                        // a memory hit went through the lookup path (which pins under LRU)
+                        hist::ev("lookup", *k, r.ver as u64, 0);
+                    }
+                    r
+                }
+                Some(Err(e)) => Res::err(err_kind(&e)),
+                // the orphaned fetch inserted its result (nobody holds a handle to it)
+                None => Res::hit(*k, *ver, *w, 1),
+            }
+        }
         Op::Contains { k } => Res::boolean(cache.contains(&MKey::plain(*k))),
         Op::Touch { k } => {
             let b = cache.touch(&MKey::plain(*k));
@@ -528,7 +564,12 @@ fn run_client(ctx: Arc<MemCtx>, client: usize, ops: Vec<Op>) -> Vec<Held> {
         let inv = hist::ev("inv", client as u64, idx as u64, 0);
         let res = exec_op(&ctx, client, &mut held, op);
         let ret = hist::ev("ret", client as u64, idx as u64, res.tag as u64);
-        LOG.with(|l| l.borrow_mut().oplog.push(OpRec { client, idx, op: op.clone(), inv, ret, res }));
+        // an abandoned fetch is, for the oracles, the fetch it amounts to
+        let logged = match op {
+            Op::AbandonFetch { k, ver, w, yields, .. } => Op::Fetch { k: *k, ver: *ver, w: *w, yields: *yields, fail: false, hold: false },
+            _ => op.clone(),
+        };
+        LOG.with(|l| l.borrow_mut().oplog.push(OpRec { client, idx, op: logged, inv, ret, res }));
         if ctx.stepwise {
             snapshot(&ctx, (client, idx), &held);
         }
